@@ -75,7 +75,8 @@ def all_text(v, acc):
 # ---------------------------------------------------------------- templates
 
 def lit(s):
-    return {'k': 'lit', 's': cps(s), '_s': s}
+    # in a rule a literal percent sign is written %% (the text is a %-format template)
+    return {'k': 'lit', 's': cps(s), '_s': s.replace('%', '%%')}
 
 
 def ph(key):
@@ -151,7 +152,7 @@ def leaf_text(t):
     if k == 'rule':
         return 'rule:' + t['name']
     if k == 'probe':
-        return 'p%d%s:%s' % (t['arity'], 'b' if t.get('_derived') else '', t['_flag'] + '#%d' % t['id'])
+        return 'p%d%s:%s' % (t['arity'], {True: 'b', 'n': 'n'}.get(t.get('_derived'), ''), t['_flag'] + '#%d' % t['id'])
     if k == 'http':
         return t['scheme'] + ':' + template_text(t['parts'])
     raise ValueError(k)
@@ -220,17 +221,32 @@ def install_probes():
     creds['f'] and record what they were told."""
     from oslo_policy import _checks
 
+    # a check may answer with any truthy / falsy value, not only True / False
+    FALSY = [False, None, 0, '', [], {}, 0.0]
+    TRUTHY = [True, 'yes', 1, [0], {'a': 1}, 2.5]
+
+    def verdict(flag, pid, creds):
+        ok = flag in creds.get('f', [])
+        return (TRUTHY if ok else FALSY)[int(pid) % 7 % (6 if ok else 7)]
+
     class P4(_checks.Check):
         def __call__(self, target, creds, enforcer, current_rule=None):
             flag, pid = self.match.rsplit('#', 1)
             PROBE_LOG.append(['probe', int(pid), '' if current_rule is None else current_rule])
-            return flag in creds.get('f', [])
+            return verdict(flag, pid, creds)
 
     class P3(_checks.Check):
         def __call__(self, target, creds, enforcer):
             flag, pid = self.match.rsplit('#', 1)
             PROBE_LOG.append(['probe', int(pid), '<noarg>'])
-            return flag in creds.get('f', [])
+            return verdict(flag, pid, creds)
+
+    # the fourth parameter receives the rule name whatever it is called
+    class P4n(_checks.Check):
+        def __call__(self, target, creds, enforcer, policy_name=None):
+            flag, pid = self.match.rsplit('#', 1)
+            PROBE_LOG.append(['probe', int(pid), '' if policy_name is None else policy_name])
+            return verdict(flag, pid, creds)
 
     # derived classes whose call signature differs from their base's: the arity is a
     # property of the class being called, not of an ancestor evaluated earlier
@@ -250,6 +266,7 @@ def install_probes():
     _checks.register('p3', P3)
     _checks.register('p3b', P3b)
     _checks.register('p4b', P4b)
+    _checks.register('p4n', P4n)
 
 
 # ---------------------------------------------------------------- enforce driver
